@@ -1,6 +1,7 @@
 package fs
 
 import (
+	"archive/tar"
 	"bytes"
 	"database/sql"
 	"io"
@@ -159,7 +160,18 @@ func (f *File) syncWithoutLocking() error {
 
 						return f.writeBuf, nil
 					},
-					Info: f.info,
+					// Pass the attributes on as a tar header; `tar.FileInfoHeader` only takes owner and access/change time from a `*tar.Header` (or a raw `syscall.Stat_t`), so they would be reset otherwise
+					Info: (&tar.Header{
+						Typeflag:   tar.TypeReg,
+						Name:       f.info.Name(),
+						Size:       size,
+						Mode:       int64(f.info.Mode().Perm()),
+						Uid:        uid,
+						Gid:        gid,
+						ModTime:    modTime,
+						AccessTime: accessTime,
+						ChangeTime: changeTime,
+					}).FileInfo(),
 					Path: f.path,
 					Link: f.link,
 				}, nil
